@@ -5,12 +5,13 @@ A stub replaces one FFI call (`svd_flat`, `np.linalg.qr`, `qr_li`, `np.linalg.ei
 `scipy.linalg.expm`) by *fresh symbols* that are constrained by nothing but the documented contract:
 
     svd      U diag(S) V = A,  U^dagger U = 1 (U U^dagger = 1 if square), V V^dagger = 1 (V^dagger V = 1 if square),
-             S real, S >= 0, descending;  linear consequences given to the branch context: S[k] = 0 for k >= number of rows /
-             columns that are not literally zero, S[0] = 0 iff A = 0
+             S real, S >= 0, descending;  consequences given to the branch context: S[k] = 0 for k >= generic rank of the
+             block (`generic_rank`), S[0] = 0 iff A = 0; with the case option `generic_rank_exact` also S[k] > 0 below it
     qr       Q R = A, Q^dagger Q = 1 (Q Q^dagger = 1 if square), R upper triangular (literal zeros below the
              diagonal) with real diagonal (LAPACK geqrf);  R[:, j] = 0 for a literally zero column j of A
              (consequence of R = Q^dagger A);  r_jj == 0  <=>  column j of A is zero (see `qr`)
-    qr_li    as qr with a symbolic number of kept columns (rank); exact for exactly rank deficient blocks
+    qr_li    keeps k = generic rank of the block columns (an input of the harness: blocks built as X.Y), Q R = A exactly,
+             R in row echelon form on the generic pivot columns
     eigh     H V = V diag(W), V unitary, W real ascending   (H: hermitian matrix read from the UPLO triangle)
     eig      A V = V diag(W), columns of V normalised
     eigvals(h)  the W of eig(h)   (functional consistency)
@@ -200,12 +201,16 @@ def make_svd(orig):
             # linear consequences of the contract, given to the branch context so that structurally impossible spectra are
             # not explored:  rank(A) <= number of rows / columns that are not literally zero;  S[0] = ||A||_2 = 0 iff A = 0
             import z3
-            nzr = sum(1 for i in range(M) if not _all_zero(A[i, :]))
-            nzc = sum(1 for j in range(N) if not _all_zero(A[:, j]))
-            for k in range(min(nzr, nzc), K):
+            grank = generic_rank(A)[0]  # rank(A) <= generic rank at every point
+            for k in range(grank, K):
                 ctx.solver.add(_zt(Sv[k]))
-            if K and min(nzr, nzc) > 0:
+            if K and grank > 0:
                 ctx.solver.add(_zt(Sv[0]) == z3.And([_zt(v) for v in A.reshape(-1) if v.n]))
+            if ctx.opts.get('generic_rank_exact'):
+                # opt-in (cases whose blocks are built with a chosen rank): the block has exactly its generic rank
+                for k in range(grank):
+                    ctx.solver.add(z3.Not(_zt(Sv[k])))
+                ctx.note(f'svd_rank_{grank}_of_{K}')
         if not compute_uv:
             return Sv.copy()
         ku = _akey(A, 'svd.UV', bool(full_matrices))
@@ -279,13 +284,61 @@ def make_qr(orig):
     return qr
 
 
-def make_qr_li(orig):
-    """stub for tenpy.tools.math.qr_li(A, cutoff): QR with a symbolic number k of kept columns.
+def _cq_mul(a, b):
+    return (a[0] * b[0] - a[1] * b[1], a[0] * b[1] + a[1] * b[0])
 
-    Contract used: Q (M,k) isometry, R (k,N) upper triangular ("upper right") with real diagonal, |r_jj| > cutoff,
-    Q R = A (exact: models blocks whose exact rank is k, i.e. whose discarded pivots vanish); k is any value in
-    1..min(M,N) (each one is a path) and 0 for a literally zero block (qr_li returns empty factors when no pivot exceeds
-    the cutoff)."""
+
+def _cq_div(a, b):
+    n = b[0] * b[0] + b[1] * b[1]
+    return ((a[0] * b[0] + a[1] * b[1]) / n, (a[1] * b[0] - a[0] * b[1]) / n)
+
+
+def generic_rank(A, tries=2, seed=20260925):
+    """(rank, pivot columns) of a matrix of polynomials at a generic point: exact Gaussian elimination over Q(i) at random
+    rational values of all variables (the maximum over `tries` points).  The rank at *every* point is <= this rank; it is
+    equal for all values outside a proper algebraic subset (e.g. for a block built as a product X.Y with inner dimension
+    r it is r, also after tenpy permuted / merged blocks)."""
+    import random
+    from fractions import Fraction
+    M, N = A.shape
+    vs = set()
+    for v in A.reshape(-1):
+        v.vars(vs)
+    best = (0, [])
+    rnd = random.Random(seed)
+    for _ in range(tries):
+        val = {v: Fraction(rnd.randint(1, 997), rnd.choice([7, 11, 13, 17, 19])) * rnd.choice([1, -1] if S.REG.kind[v] not in 'pn' else [1])
+               for v in sorted(vs)}
+        rows = [[tuple(Fraction(x) for x in A[i, j].evalf(val)) for j in range(N)] for i in range(M)]
+        piv = []
+        r = 0
+        for j in range(N):
+            p = next((i for i in range(r, M) if rows[i][j] != (0, 0)), None)
+            if p is None:
+                continue
+            rows[r], rows[p] = rows[p], rows[r]
+            for i in range(r + 1, M):
+                if rows[i][j] != (0, 0):
+                    f = _cq_div(rows[i][j], rows[r][j])
+                    rows[i] = [(x[0] - _cq_mul(f, y)[0], x[1] - _cq_mul(f, y)[1]) for x, y in zip(rows[i], rows[r])]
+            piv.append(j)
+            r += 1
+            if r == M:
+                break
+        if r > best[0]:
+            best = (r, piv)
+    return best
+
+
+def make_qr_li(orig):
+    """stub for tenpy.tools.math.qr_li(A, cutoff): rank revealing QR.
+
+    The number k of kept columns is the *generic rank* of the block (see `generic_rank`): the rank is an input of the
+    harness (blocks built as products X.Y), not a fork on stub output, so that the symbolic path and the concrete replay with
+    the real qr_li (cutoff well above rounding) keep the same number of columns.  Contract: Q (M,k) isometry, Q R = A,
+    R (k,N) in row echelon form with the generic pivot columns p_0 < p_1 < ... of A (R[i,j] = 0 for j < p_i, which is
+    R = Q^dagger A for the Gram-Schmidt basis of the pivot columns); where the pivots are the leading columns (p_i = i,
+    "upper right") the diagonal is real (LAPACK) with |r_ii| > cutoff (documented)."""
 
     def qr_li(A_, cutoff=1.e-15):
         if not is_obj(A_):
@@ -297,29 +350,27 @@ def make_qr_li(orig):
         key = _akey(A, 'qr_li')
         QR = memo.get(key)
         if QR is None:
-            Kmax = min(M, N)
-            if _all_zero(A.reshape(-1)):
-                k = 0
-            else:
-                ctx._fresh += 1
-                k = ctx.int(f"qrli_rank#{ctx._fresh}", 1, Kmax).__index__() if Kmax > 1 else Kmax
+            k, piv = generic_rank(A)
             cplx = _is_cplx(A)
             Q = fresh_matrix(ctx, 'qrliQ', (M, k), cplx)
             R = np.empty((k, N), dtype=object)
             import z3
             c = S.R.lift(cutoff).z3()[0]
+            leading = True
             for i in range(k):
+                leading = leading and piv[i] == i
                 for j in range(N):
-                    if i > j:
+                    if j < piv[i]:
                         R[i, j] = _zero()
-                    elif i == j:
-                        R[i, j] = fresh_real(ctx, f'qrliR_{i}_{j}')  # LAPACK: real diagonal; documented: |r_jj| > cutoff
+                    elif j == piv[i] and leading:
+                        R[i, j] = fresh_real(ctx, f'qrliR_{i}_{j}')
                         r = R[i, j].z3()[0]
                         ctx.solver.add(z3.Or(r > c, r < -c))
                     else:
                         R[i, j] = ctx.fresh(f'qrliR_{i}_{j}', cplx)
             if k:
                 _qr_contract(ctx, A, Q, R, tie_zero_columns=False)
+            ctx.note(f'qr_li_rank_{k}_of_{min(M, N)}')
             QR = memo[key] = (Q, R)
         return QR[0].copy(), QR[1].copy()
 
